@@ -723,6 +723,344 @@ def render_guards_period():
     return "\n".join(GUARDS_HEADER) + "\n" + guard_subperiods() + "\n"
 
 
+# ----------------------------------------------------------------------------
+# Syntax patterns with named holes (used for pinned statements and for the plans)
+#
+# A pattern is Python text in which the identifiers __b_x / __r_x / __m_x are holes:
+#   __b_x   a local name; bound to x on first use, the same name afterwards
+#   __r_x   the local name already bound to x
+#   __m_x   a message: a string literal, an f-string, or a local bound to one
+# Everything else must be syntactically identical.
+# ----------------------------------------------------------------------------
+
+def _pat(src, mode="exec"):
+    body = ast.parse(src, mode=mode).body
+    return body[0] if mode == "exec" else body
+
+
+def _pmatch(pat, node, b):
+    if isinstance(pat, ast.Name) and pat.id[:4] in ("__b_", "__r_", "__m_"):
+        kind, key = pat.id[2], pat.id[4:]
+        if kind == "m":
+            if isinstance(node, ast.Name):
+                return node.id in b.get("@msgs", ())
+            return isinstance(node, ast.JoinedStr) or (isinstance(node, ast.Constant) and isinstance(node.value, str))
+        if not isinstance(node, ast.Name) or type(pat.ctx) is not type(node.ctx):
+            return False
+        if key in b:
+            return b[key] == node.id
+        if kind == "r" or node.id in [v for k, v in b.items() if k != "@msgs"]:
+            return False
+        b[key] = node.id
+        return True
+    if type(pat) is not type(node):
+        return False
+    for f, pv in ast.iter_fields(pat):
+        nv = getattr(node, f, None)
+        if isinstance(pv, list):
+            if not isinstance(nv, list) or len(pv) != len(nv):
+                return False
+            for x, y in zip(pv, nv):
+                if isinstance(x, ast.AST):
+                    if not _pmatch(x, y, b):
+                        return False
+                elif x != y:
+                    return False
+        elif isinstance(pv, ast.AST):
+            if not isinstance(nv, ast.AST) or not _pmatch(pv, nv, b):
+                return False
+        elif pv != nv:
+            return False
+    return True
+
+
+def _matches(src, node, b, mode="exec"):
+    """match and, on success only, extend the bindings b"""
+    trial = dict(b)
+    if "@msgs" in trial:
+        trial["@msgs"] = set(trial["@msgs"])
+    if _pmatch(_pat(src, mode), node, trial):
+        b.update(trial)
+        return True
+    return False
+
+
+def _line(node):
+    return _src(node).splitlines()[0]
+
+
+# ----------------------------------------------------------------------------
+# Holder.set_input / _set / _to_array, Simulation.set_input -> coq/gen/GuardsInput.v
+# ----------------------------------------------------------------------------
+
+HOL = "openfisca_core/holders/holder.py"
+PURE_CALLS = ("join", "format", "upper")
+
+
+def _pure_text(node, names, attrs):
+    """an expression that only builds a text from known values (cannot fail, no effect)"""
+    ok = lambda n: _pure_text(n, names, attrs)
+    if isinstance(node, ast.Constant) and isinstance(node.value, (str, int)):
+        return True
+    if isinstance(node, ast.JoinedStr):
+        return all((isinstance(v, ast.Constant) and isinstance(v.value, str))
+                   or (isinstance(v, ast.FormattedValue) and v.conversion == -1 and v.format_spec is None
+                       and ok(v.value)) for v in node.values)
+    if isinstance(node, ast.Name):
+        return node.id in names
+    if isinstance(node, ast.Attribute):
+        return _src(node) in attrs
+    if isinstance(node, ast.Call):
+        return (isinstance(node.func, ast.Attribute) and node.func.attr in PURE_CALLS and not node.keywords
+                and ok(node.func.value) and all(ok(a) for a in node.args))
+    if isinstance(node, (ast.List, ast.Tuple)):
+        return all(ok(e) for e in node.elts)
+    if isinstance(node, ast.IfExp):
+        return ok(node.test) and ok(node.body) and ok(node.orelse)
+    if isinstance(node, ast.Compare):
+        return (ok(node.left) and all(ok(c) for c in node.comparators)
+                and all(isinstance(o, (ast.Eq, ast.NotEq)) for o in node.ops))
+    return False
+
+
+def _raise_outcome(stmts, fn, names, attrs, table):
+    """[local = <text>;]* raise <exception>(<texts>) -> the outcome table[exception]; None when
+    the statements do not end in a raise"""
+    if not stmts or not isinstance(stmts[-1], ast.Raise):
+        return None
+    names = set(names)
+    for st in stmts[:-1]:
+        if (isinstance(st, ast.Assign) and len(st.targets) == 1 and isinstance(st.targets[0], ast.Name)
+                and st.targets[0].id not in names and _pure_text(st.value, names, attrs)):
+            names.add(st.targets[0].id)
+        else:
+            raise TranslationError(f"{_where(fn, st)}: statement '{_line(st)}' before a raise is not the building of a message")
+    r = stmts[-1]
+    e = r.exc
+    if (r.cause is None and isinstance(e, ast.Call) and not e.keywords and _src(e.func) in table
+            and all(_pure_text(a, names, attrs) for a in e.args)):
+        return table[_src(e.func)]
+    raise TranslationError(f"{_where(fn, r)}: raise statement '{_line(r)}' is not of a known form "
+                           f"(expected one of {sorted(table)})")
+
+
+def _holder_tree():
+    tree = _parse(HOL)
+    for m in ("periods", "errors", "commons"):
+        _require_import(tree, HOL, "openfisca_core", m)
+    for m in ("os", "warnings", "numpy"):
+        if not any(isinstance(n, ast.Import) and any(a.name == m and a.asname is None for a in n.names)
+                   for n in tree.body):
+            raise TranslationError(f"{HOL}: 'import {m}' not found at module level")
+    _no_rebinding(tree, HOL, {"periods", "errors", "commons", "ValueError", "isinstance", "len", "float", "int", "str"})
+    return tree
+
+
+def guard_holder_eternal(tree):
+    what = "Holder.__init__"
+    cls = [n for n in tree.body if isinstance(n, ast.ClassDef) and n.name == "Holder"]
+    if len(cls) != 1:
+        raise TranslationError("class Holder not found exactly once")
+    sets = [n for n in ast.walk(cls[0])
+            if isinstance(n, (ast.Assign, ast.AnnAssign, ast.AugAssign))
+            and any(isinstance(t, ast.Attribute) and t.attr == "_eternal"
+                    for t in (n.targets if isinstance(n, ast.Assign) else [n.target]))]
+    init = _func(tree, "__init__", cls="Holder")
+    me = init.args.args[0].arg
+    top = [n for n in _body(init) if n in sets]
+    if len(sets) != 1 or len(top) != 1 or not isinstance(top[0], ast.Assign) or len(top[0].targets) != 1 \
+            or _src(top[0].targets[0]) != f"{me}._eternal":
+        raise TranslationError(f"{what}: self._eternal is not assigned exactly once, at the top level of __init__")
+    if not any(_is(n, f"{me}.variable = {init.args.args[1].arg}", mode="exec") for n in _body(init)):
+        raise TranslationError(f"{what}: self.variable is not the first parameter")
+    env = _Env(what, allowed=("def_unit",), units={f"{me}.variable.definition_period": "def_unit"})
+    return ("(* Holder.__init__: self._eternal *)\n"
+            "Definition gen_holder_eternal (def_unit : unit_t) : bool :=\n"
+            f"  {_cond(top[0].value, env)}.")
+
+
+def guard_holder_set_input(tree):
+    what = "Holder.set_input"
+    fn = _func(tree, "set_input", cls="Holder")
+    me, per, arr = _params(fn, 3, what)
+    stmts = _body(fn)
+    if not stmts or not _is(stmts[0], f"{per} = periods.period({per})", mode="exec"):
+        raise TranslationError(f"{what}: expected '{per} = periods.period({per})' first")
+    env = _Env(what, allowed=("req_unit", "eternal", "neutralized", "has_rule"),
+               units={f"{per}.unit": "req_unit"},
+               bools={f"{me}._eternal": "eternal", f"{me}.variable.is_neutralized": "neutralized",
+                      f"{me}.variable.set_input": "has_rule"})
+    names = {per, arr}
+    attrs = {f"{me}.variable.name", f"{me}.variable.definition_period", "os.linesep",
+             "periods.DateUnit.ETERNITY", f"{per}.unit", f"{per}.size"}
+    evalstr = (f"if {me}.variable.value_type in (float, int) and isinstance({arr}, str):\n"
+               f"    {arr} = commons.eval_expression({arr})")
+
+    def outcome(body):
+        o = _raise_outcome(body, what, names, attrs, {"errors.PeriodMismatchError": "SOMismatch"})
+        if o is not None:
+            return o
+        b = {}
+        if (len(body) == 2 and isinstance(body[0], ast.Assign) and len(body[0].targets) == 1
+                and isinstance(body[0].targets[0], ast.Name) and body[0].targets[0].id not in names
+                and _pure_text(body[0].value, names, attrs)
+                and _is(body[1], f"return warnings.warn({body[0].targets[0].id}, Warning, stacklevel=2)", mode="exec")):
+            return "SOIgnored"
+        if len(body) == 1 and _is(body[0], f"return {me}.variable.set_input({me}, {per}, {arr})", mode="exec"):
+            return "SORule"
+        if len(body) == 1 and _is(body[0], f"return {me}._set({per}, {arr})", mode="exec"):
+            return "SOSet"
+        at = body[-1] if body else fn
+        raise TranslationError(f"{_where(what, at)}: outcome '{_line(at)}' is not of a known form")
+
+    lines = []
+    rest = stmts[1:]
+    for k, st in enumerate(rest):
+        if k == len(rest) - 1:
+            lines.append(f"  {'else ' if lines else ''}{outcome([st])}.")
+        elif _is(st, evalstr, mode="exec"):
+            continue                   # text input of a numeric variable: evaluated, then as below
+        elif isinstance(st, ast.If) and not st.orelse:
+            lines.append(f"  {'else if' if lines else 'if'} {_cond(st.test, env)} then {outcome(st.body)}")
+        else:
+            raise TranslationError(f"{_where(what, st)}: statement '{_line(st)}' is not 'if <test>: <outcome>'")
+    return "\n".join([
+        "(* Holder.set_input(period, array) *)",
+        "Definition gen_holder_set_input (req_unit : unit_t) (eternal neutralized has_rule : bool) : set_outcome :=",
+    ] + lines)
+
+
+def guard_holder_to_array(tree):
+    what = "Holder._to_array"
+    fn = _func(tree, "_to_array", cls="Holder")
+    me, val = _params(fn, 2, what)
+    stmts = _body(fn)
+    head = [f"if not isinstance({val}, numpy.ndarray):\n    {val} = numpy.asarray({val})",
+            f"if {val}.ndim == 0:\n    {val} = {val}.reshape(1)"]
+    for k, h in enumerate(head):
+        if k >= len(stmts) or not _is(stmts[k], h, mode="exec"):
+            at = stmts[k] if k < len(stmts) else fn
+            raise TranslationError(f"{_where(what, at)}: expected '{h.splitlines()[0]} ...', got '{_line(at)}'")
+    env = _Env(what, allowed=("len", "count"), ints={f"len({val})": "len", f"{me}.population.count": "count"})
+    names = {val}
+    attrs = {f"{me}.variable.name", f"{me}.population.count", f"{me}.population.entity.plural"}
+    chain = []
+    for st in stmts[2:]:
+        if not (isinstance(st, ast.If) and not st.orelse and st.body and isinstance(st.body[-1], ast.Raise)):
+            break
+        # the message may also print len(value)
+        body = st.body
+        for b in body[:-1]:
+            if not (isinstance(b, ast.Assign) and len(b.targets) == 1 and isinstance(b.targets[0], ast.Name)
+                    and isinstance(b.value, (ast.JoinedStr, ast.Constant))):
+                raise TranslationError(f"{_where(what, b)}: statement '{_line(b)}' before a raise")
+            for v in getattr(b.value, "values", []):
+                if isinstance(v, ast.FormattedValue) and not (
+                        _pure_text(v.value, names, attrs) or _is(v.value, f"len({val})")):
+                    raise TranslationError(f"{_where(what, v)}: message part '{_src(v)}' is not expected")
+            names.add(b.targets[0].id)
+        r = body[-1].exc
+        if not (body[-1].cause is None and isinstance(r, ast.Call) and _is(r.func, "ValueError")
+                and len(r.args) == 1 and not r.keywords and isinstance(r.args[0], ast.Name) and r.args[0].id in names):
+            raise TranslationError(f"{_where(what, body[-1])}: raise statement '{_line(body[-1])}' is not raise ValueError(msg)")
+        chain.append((_cond(st.test, env), True))
+    if not chain:
+        raise TranslationError(f"{what}: no length test found after the conversion to an array")
+    return ("(* Holder._to_array: the length test; true = raises ValueError *)\n"
+            "Definition gen_to_array_rejects (len count : Z) : bool :=\n" + _render_chain(chain))
+
+
+def guard_holder_set(tree):
+    what = "Holder._set"
+    fn = _func(tree, "_set", cls="Holder")
+    me, per, val = _params(fn, 3, what)
+    stmts = _body(fn)
+    if not stmts or not _is(stmts[0], f"{val} = {me}._to_array({val})", mode="exec"):
+        raise TranslationError(f"{what}: expected '{val} = {me}._to_array({val})' first")
+    env = _Env(what, allowed=("eternal", "period_is_none", "def_unit", "req_unit", "size"),
+               units={f"{me}.variable.definition_period": "def_unit", f"{per}.unit": "req_unit"},
+               ints={f"{per}.size": "size"},
+               bools={f"{me}._eternal": "eternal", f"{per} is None": "period_is_none"})
+    names = {per}
+    attrs = {f"{me}.variable.name", f"{me}.variable.definition_period", "os.linesep",
+             "periods.DateUnit.ETERNITY", f"{per}.unit", f"{per}.size"}
+    table = {"ValueError": "SGValueError", "errors.PeriodMismatchError": "SGMismatch"}
+
+    def is_guard(st):
+        if not isinstance(st, ast.If) or st.orelse or not st.body:
+            return False
+        return isinstance(st.body[-1], ast.Raise) or all(is_guard(x) for x in st.body)
+
+    def render(sts, k, ind):
+        if not sts:
+            return k
+        st = sts[0]
+        c = _cond(st.test, env)
+        cont = render(sts[1:], k, ind)
+        if isinstance(st.body[-1], ast.Raise):
+            o = _raise_outcome(st.body, what, names, attrs, table)
+            return f"if {c} then {o}\n{ind}else {cont}"
+        inner = render(st.body, cont, ind + "  ")
+        return f"if {c} then ({inner})\n{ind}else {cont}"
+
+    guards = []
+    for st in stmts[1:]:
+        if not is_guard(st):
+            break
+        guards.append(st)
+    if not guards:
+        raise TranslationError(f"{what}: no guard found after the conversion to an array")
+    # what follows must not test the period again
+    for st in stmts[1 + len(guards):]:
+        for n in ast.walk(st):
+            if isinstance(n, (ast.Raise, ast.Return)):
+                raise TranslationError(f"{_where(what, n)}: '{_line(n)}' after the guards")
+    return ("(* Holder._set: the tests between the conversion to an array and the storage *)\n"
+            "Definition gen_holder_set_guard (eternal period_is_none : bool) (def_unit req_unit : unit_t) "
+            "(size : Z) : set_guard :=\n  " + render(guards, "SGOk", "  ") + ".")
+
+
+def guard_sim_set_input():
+    what = "Simulation.set_input"
+    fn = _func(_sim_tree(), "set_input", cls="Simulation")
+    a = fn.args
+    if a.posonlyargs or a.vararg or a.kwonlyargs or a.kwarg or len(a.args) != 4 or a.defaults or fn.decorator_list:
+        raise TranslationError(f"{what}: signature changed ({_src(a)})")
+    me, name, per, val = [x.arg for x in a.args]
+    stmts = _body(fn)
+    if (stmts and isinstance(stmts[0], ast.AnnAssign) and stmts[0].value is None
+            and isinstance(stmts[0].target, ast.Name)):
+        stmts = stmts[1:]
+    b = {"self": me, "name": name, "period": per, "value": val}
+    head = ["__b_variable = __r_self.tax_benefit_system.get_variable(__r_name, check_existence=True)",
+            "if __r_variable is None:\n    raise errors.VariableNotFoundError(__r_name, __r_self.tax_benefit_system)",
+            "__r_period = periods.period(__r_period)"]
+    for k, h in enumerate(head):
+        if k >= len(stmts) or not _matches(h, stmts[k], b):
+            at = stmts[k] if k < len(stmts) else fn
+            raise TranslationError(f"{_where(what, at)}: expected '{h.splitlines()[0]} ...', got '{_line(at)}'")
+    rest = stmts[3:]
+    var = b["variable"]
+    if not (len(rest) == 2 and isinstance(rest[0], ast.If) and not rest[0].orelse
+            and len(rest[0].body) == 1 and _is(rest[0].body[0], "return", mode="exec")
+            and _is(rest[1], f"{me}.get_holder({name}).set_input({per}, {val})", mode="exec")):
+        at = rest[0] if rest else fn
+        raise TranslationError(f"{_where(what, at)}: expected 'if <test>: return' and then "
+                               f"'self.get_holder(name).set_input(period, value)'")
+    env = _Env(what, allowed=("has_end", "start_after_end"),
+               bools={f"{var}.end is not None": "has_end", f"{per}.start.date > {var}.end": "start_after_end"})
+    return ("(* Simulation.set_input: true = the input is dropped (return before the holder is reached) *)\n"
+            "Definition gen_sim_set_input_ignored (has_end start_after_end : bool) : bool :=\n"
+            f"  if {_cond(rest[0].test, env)} then true\n  else false.")
+
+
+def render_guards_input():
+    tree = _holder_tree()
+    parts = [guard_holder_eternal(tree), guard_sim_set_input(), guard_holder_set_input(tree),
+             guard_holder_to_array(tree), guard_holder_set(tree)]
+    return "\n".join(GUARDS_HEADER) + "\n" + "\n\n".join(parts) + "\n"
+
+
 def render_guards():
     parts = [guard_check_consistency(), guard_add(), guard_divide(), guard_dispatch()]
     return "\n".join(GUARDS_HEADER) + "\n" + "\n\n".join(parts) + "\n"
@@ -780,6 +1118,7 @@ LAST_GUARD_ERROR = None
 GENERATED = [
     ("Guards.v", lambda: render_guards()),                 # engine guards            (props/C03.v)
     ("GuardsPeriod.v", lambda: render_guards_period()),    # Period.get_subperiods    (props/C04.v)
+    ("GuardsInput.v", lambda: render_guards_input()),      # set_input routing        (props/C16.v, C18.v)
 ]
 
 
